@@ -94,7 +94,18 @@ func (f *FuzzPeer) mutate(b []byte) ([]byte, string) {
 	if len(c) == 0 {
 		return simkit.Bytes(t, "fzrand", 0, 8), "random-bytes"
 	}
-	switch simkit.Int(t, "fzkind", 0, 8) {
+	switch simkit.Int(t, "fzkind", 0, 10) {
+	case 9:
+		// the length prefix of a length-delimited field (top level or one level down) replaced by a ten-byte varint
+		// of 2^63, 2^63+20 or 2^64-1
+		if out, ok := replaceLengthPrefix(c, simkit.Int(t, "fzfield", 0, 40), simkit.Int(t, "fzhuge", 0, 2)); ok {
+			return out, "length-prefix-above-2^63"
+		}
+		return c[:len(c)/2], "truncated"
+	case 10:
+		i := simkit.Int(t, "fzvar", 0, len(c)-1)
+		out := append(append([]byte(nil), c[:i]...), hugeVarints[simkit.Int(t, "fzhuge", 0, 2)]...)
+		return append(out, c[i:]...), "ten-byte-varint-inserted"
 	case 0:
 		return c[:simkit.Int(t, "fzcut", 0, len(c)-1)], "truncated"
 	case 1:
@@ -246,4 +257,65 @@ func (f *FuzzPeer) crafted(n *Node) {
 	v := f.W.Vals[simkit.Int(t, "fzscval", 0, len(f.W.Vals)-1)]
 	sc := certificate.VerifNewSingleCommit(header.ID, header.Height, v.Address, garbageSig())
 	f.gossip(n, consensus.P2PEventPostSingleCommits, consensus.VerifPostSingleCommits(certificate.SingleCommits{sc}), "crafted-single-commit")
+}
+
+var hugeVarints = [][]byte{
+	{0x80, 0x80, 0x80, 0x80, 0x80, 0x80, 0x80, 0x80, 0x80, 0x01}, // 2^63
+	{0x94, 0x80, 0x80, 0x80, 0x80, 0x80, 0x80, 0x80, 0x80, 0x01}, // 2^63 + 20
+	{0xff, 0xff, 0xff, 0xff, 0xff, 0xff, 0xff, 0xff, 0xff, 0x01}, // 2^64 - 1
+}
+
+// replaceLengthPrefix walks the payload as a sequence of (key varint, value) fields, descending once into
+// length-delimited values, collects the positions of length prefixes and replaces the k-th (mod their number).
+func replaceLengthPrefix(b []byte, k, which int) ([]byte, bool) {
+	type span struct{ at, n int }
+	var spans []span
+	readVarint := func(p int) (uint64, int) {
+		var v uint64
+		for i := 0; i < 10 && p+i < len(b); i++ {
+			v |= uint64(b[p+i]&0x7f) << (7 * uint(i))
+			if b[p+i] < 0x80 {
+				return v, i + 1
+			}
+		}
+		return 0, 0
+	}
+	var walk func(lo, hi, depth int)
+	walk = func(lo, hi, depth int) {
+		p := lo
+		for p < hi {
+			key, n := readVarint(p)
+			if n == 0 {
+				return
+			}
+			p += n
+			switch key & 7 {
+			case 0:
+				_, n := readVarint(p)
+				if n == 0 {
+					return
+				}
+				p += n
+			case 2:
+				l, n := readVarint(p)
+				if n == 0 || p+n+int(l) > hi || int(l) < 0 {
+					return
+				}
+				spans = append(spans, span{p, n})
+				if depth < 2 {
+					walk(p+n, p+n+int(l), depth+1)
+				}
+				p += n + int(l)
+			default:
+				return
+			}
+		}
+	}
+	walk(0, len(b), 0)
+	if len(spans) == 0 {
+		return nil, false
+	}
+	sp := spans[k%len(spans)]
+	out := append(append([]byte(nil), b[:sp.at]...), hugeVarints[which]...)
+	return append(out, b[sp.at+sp.n:]...), true
 }
